@@ -445,6 +445,34 @@ func runProbe(c *fw.Ctx, w which, idx int, pc probeCase) {
 			}
 		}
 	}
+	// (C) blocks and records larger than the reader's 64 KiB read-ahead chunk (only for the plain string / bytes leaves)
+	if pc.depth == 0 && (pc.probe.Expr.Op == "string" || pc.probe.Expr.Op == "[]byte") {
+		mkBig := func(n int, seed byte) reflect.Value {
+			b := make([]byte, n)
+			for i := range b {
+				b[i] = seed + byte(i*7) + byte(i>>8)
+			}
+			if pc.probe.Expr.Op == "string" {
+				return reflect.ValueOf(string(b))
+			}
+			return reflect.ValueOf(b)
+		}
+		b1, b2 := mkBig(70000, 1), mkBig(66000, 9)
+		small := reps[1]
+		for _, comp := range []string{"null", "deflate", "snappy"} {
+			for _, bs := range []int{0, 65536, 300000} {
+				runOne(c, w, pc, []reflect.Value{b1, small, b2, small}, config{comp: comp, bs: bs, mode: mode()})
+			}
+		}
+		// many small records in one block of more than 64 KiB
+		var many []reflect.Value
+		for i := 0; i < 400; i++ {
+			many = append(many, mkBig(190+i%7, byte(i)))
+		}
+		for _, comp := range []string{"null", "snappy"} {
+			runOne(c, w, pc, many, config{comp: comp, bs: 1 << 20, mode: filedrv.ModeFull})
+		}
+	}
 	if idx%53 == 0 {
 		c.Sample(map[string]interface{}{"type": pc.probe.Name, "static_generic_encoder": pc.newS != nil, "alphabet": len(full), "example_sequence": seqDesc(reps)})
 	}
@@ -455,7 +483,7 @@ func rule(tier string, what string) string {
 	if tier == "thorough" {
 		d = "depth<=1 statically (320 generated types through the real generic Encoder[T]) and dynamically; depth 2 (256 expressions × 4 tags) and depth 3 (1024 expressions) dynamically"
 	}
-	return "probe struct types struct{c0; F τ `tag`; c1; c2} with canary fields, τ over 16 leaves {bool,int,int16,int32,int64,float32,float64,string,[]byte,time.Time,null.Int/Bool/Float/String/Time,Rec} and wrappers {*τ,[]τ,map[string]τ,struct{X τ}}: " + d + "; per type: every value sequence of length<=2 over the full value alphabet, every length-3 sequence over 3 representatives × {null,deflate,snappy} × block size {0,1,size of two records,65536} × every subset of flush positions, reader chunking rotating over {full,1-byte,data+EOF}; " + what + "; a case is one (type, sequence, configuration); non-trivial = encoding succeeded and the output reached the oracle"
+	return "probe struct types struct{c0; F τ `tag`; c1; c2} with canary fields, τ over 16 leaves {bool,int,int16,int32,int64,float32,float64,string,[]byte,time.Time,null.Int/Bool/Float/String/Time,Rec} and wrappers {*τ,[]τ,map[string]τ,struct{X τ}}: " + d + "; per type: every value sequence of length<=2 over the full value alphabet, every length-3 sequence over 3 representatives × {null,deflate,snappy} × block size {0,1,size of two records,65536} × every subset of flush positions, reader chunking rotating over {full,1-byte,data+EOF}; for the string and []byte leaves also records of 66–70 kB and a 400-record block of >64 KiB (larger than the reader's read-ahead chunk) under every codec; " + what + "; a case is one (type, sequence, configuration); non-trivial = encoding succeeded and the output reached the oracle"
 }
 
 func register(id string, w which, level, what string, assumptions []string) {
